@@ -31,3 +31,10 @@ package eventloop
 //@   requires qwf(q)
 //@   ensures [def] result == qlen(q)
 //@   ensures [bounds] 0 <= result && result <= qcap(q)
+
+// Trusted: creates a context and registers cancel handlers (closures, generics, context
+// package); touches only the handler table of the event loop.
+//@ func (*EventLoop).TimeoutContext
+//@   trusted registers handlers through generic Register and context.WithCancel; not verified
+//@   ensures result1 != nil
+//@   modifies el.handlers[*], alloc
